@@ -1,5 +1,6 @@
 import TunnelModel
 import Driver.Util
+import TunnelModel.Generated.Facts
 /-! line-protocol commands for the L-atomic flow-control model -/
 namespace Driver
 open TunnelModel TunnelModel.FlowStep
@@ -48,6 +49,30 @@ def flowCheck (f : FlowState) : String :=
   let bounded := s.queue.sum ≤ f.W && s.sent ≤ f.W + s.credited && s.granted ≤ s.dequeued &&
                  (s.dataWire ++ s.queue).all (· ≤ f.cm) && !s.overrun
   s!"settled={b01 settled} blockedFull={b01 blockedFull} restored={b01 restored} complete={b01 complete} bounded={b01 bounded}"
+
+/-- one half-stream of the bounded-carrier world: `u:1:5,0,3` = up, reading application, messages 5, 0, 3 -/
+def parseHalf (s : String) : Option (Closed.Dir × Bool × List Nat) :=
+  match s.splitOn ":" with
+  | [d, w, ms] =>
+    match (if d = "u" then some Closed.Dir.up else if d = "d" then some Closed.Dir.down else none), parseNatList ms with
+    | some dir, some l => if w = "1" then some (dir, true, l) else if w = "0" then some (dir, false, l) else none
+    | _, _ => none
+  | _ => none
+
+/-- bounded-carrier world: the closed model (`TunnelModel/Closed.lean`) is run by its deterministic scheduler until no
+    action is enabled; by `C05_outcome` every schedule ends with this summary.  Window and chunk size are the
+    constants regenerated from the code. -/
+def boundedCmd (cmd : String) (args : List String) : Option String :=
+  if cmd != "bd.round" then none else
+  match kvNat args "K", kv args "cfg" with
+  | some K, some c =>
+    match (c.splitOn ";").mapM parseHalf with
+    | some cfg =>
+      let s := Closed.runToEnd K Generated.chunkMax (Closed.workBound cfg) (Closed.init Generated.initialWindowSize cfg)
+      let rows := (Closed.summary s).zipIdx.map (fun (r, i) => s!"{i}:{r.1},{r.2.1},{r.2.2.1},{r.2.2.2}")
+      some (joinWith " " rows)
+    | none => some "bad-op"
+  | _, _ => some "bad-op"
 
 def flowCmd (f : FlowState) (cmd : String) (args : List String) : Option (FlowState × String) :=
   match cmd with
